@@ -675,6 +675,15 @@ def safe_map(I, f, *xs):
     return [I.call(f, list(t), {}) for t in zip(*ls)]
 
 
+def unzip2(I, pairs):
+    xs, ys = [], []
+    for it in I.iterate(pairs):
+        a, b = I.unpack(it, 2)
+        xs.append(a)
+        ys.append(b)
+    return (tuple(xs), tuple(ys))
+
+
 def typing_cast(I, t, v):
     return v
 
@@ -738,6 +747,7 @@ def install(I):
     e["itertools.groupby"] = itertools_groupby
     e["operator.itemgetter"] = operator_itemgetter
     e["jax.util.safe_map"] = safe_map
+    e["jax.util.unzip2"] = unzip2
     e["typing.cast"] = typing_cast
     e["warnings.warn"] = noop
     e["textwrap.dedent"] = identity
